@@ -119,6 +119,15 @@ CHECKS = {
          "carried spectrum.",
     note="floating-point closeness of the eigenproblem results is decided by the harness with scale-relative tolerances; TLC decides the discrete relations and that the claimed spectrum belongs to the integer matrices",
     technique="TLA+ model (Kernels.tla) checked with TLC + replay of TLC-generated machine states and TLC validation of recorded helper calls"),
+ "C19": dict(
+    category="model_checking", design_ref="DESIGN.md section 6 C19",
+    text="TLC explores all ~1.3M scenarios of the Inputs model (program x attributes present x run type x charge x spin x keyword "
+         "subset x template kind) checking KwargsWin, DefaultsOnlyWhenAbsent, UnknownProgramIsFormatError, ErrorClasses; ~1600 "
+         "(quick) real write_input calls on molecules of 1..200 atoms (all elements, tagged coordinates, default/custom/broken "
+         "templates, custom atom-line callbacks) are tokenised and every rendered field is validated by TLC against "
+         "ExpectedText (precedence, keyword tables, rounding of charge and multiplicity) and the geometry block against the molecule.",
+    note="charges/spins are quarter-valued away from ties; element symbols and the bohr-angstrom factor are the harness' own",
+    technique="TLA+ model (Inputs.tla) checked with TLC + TLC validation of tokenised write_input outputs"),
 }
 NOT_YET = "check not built yet in this round (planned, see DESIGN.md section 6)"
 
